@@ -129,14 +129,27 @@ theorem clamp_is_argument (q : MathQuirks) (mn num mx : Q α) :
 
 /-! ### incompatible units are an error -/
 /-- FULL (specification model): when the running extreme and the next argument both have
-units, of different dimensions, and neither is NaN, `min`/`max` is an error. -/
+units, of different dimensions, `min`/`max` is an error — whatever the values (NaN included). -/
 theorem incompatible_units_error (pref : Ordering) (found v : Q α) (rest : List (Q α))
-    (ha : found.u ≠ .none) (hb : v.u ≠ .none) (hd : found.u.dim ≠ v.u.dim)
-    (hn : isNaN found.v = false ∧ isNaN v.v = false) :
+    (ha : found.u ≠ .none) (hb : v.u ≠ .none) (hd : found.u.dim ≠ v.u.dim) :
     extremeLoop spec pref found (v :: rest) = .err ∧ extreme spec pref (found :: v :: rest) = .err := by
   have h := cmp2_none_of_incompatible spec found v ha hb hd
+  have hne : found.u ≠ v.u := fun e => hd (by rw [e])
+  have hne' : v.u ≠ found.u := fun e => hne e.symm
+  have hd' : v.u.dim ≠ found.u.dim := fun e => hd e.symm
+  have hc : comparableU (α := α) found.u v.u = false := by
+    simp [comparableU, unitScale, hne, ha, hb, hne', hd']
   simp only [extreme, extremeLoop, h]
-  simp [spec, hn.1, hn.2]
+  simp [spec, hc]
+
+/-- FULL (specification model): a NaN argument among comparable numbers is neither larger nor
+smaller — the running extreme stays (whatever is returned is still one of the arguments,
+`extreme_is_argument`). -/
+theorem nan_keeps_candidate (pref : Ordering) (found v : Q α) (rest : List (Q α))
+    (hc : cmp2 spec found v = none) (hu : comparableU (α := α) found.u v.u = true) :
+    extremeLoop spec pref found (v :: rest) = extremeLoop spec pref found rest := by
+  simp only [extremeLoop, hc]
+  simp [spec, hu]
 
 /-- FULL: `clamp` with a `$number` or `$max` whose unit is incompatible with `$min`'s (or
 unitless against units) is an error. -/
@@ -185,7 +198,7 @@ theorem extreme_css_fallback_refuted :
     @extreme Rat (ratOps L) asis .lt [⟨1, .px⟩, ⟨1, .percent⟩] = Res.cssCall ∧
     @extreme Rat (ratOps L) spec .lt [⟨1, .px⟩, ⟨1, .percent⟩] = Res.err := by
   constructor <;> simp [extreme, extremeLoop, cmp2, qcmp, asUnit, unitScale, MUnit.dim, Dim.css, mayCmpCss, asis, spec,
-    isNaN, MOps.feq]
+    comparableU, MOps.feq]
 
 /-- FULL: `floor` is the greatest integer not above the value. -/
 theorem floor_spec (x : Rat) : ∃ n : Int, (ratOps L).floor x = (n : Rat) ∧ (n : Rat) ≤ x ∧ x < n + 1 :=
